@@ -10,14 +10,15 @@ theorem sliceReadExact_ok {n : Nat} {bs b r : Bytes} (h : sliceReadExact n bs = 
     n ≤ bs.length ∧ b = bs.take n ∧ r = bs.drop n := by
   unfold sliceReadExact at h
   split at h
-  · simp at h; exact ⟨by assumption, h.1.symm, h.2.symm⟩
+  · rename_i hge
+    simp at h; exact ⟨(lengthGe_iff bs n).mp hge, h.1.symm, h.2.symm⟩
   · simp at h
 
 theorem sliceReadExact_ext {n : Nat} {p b r : Bytes} (s : Bytes)
     (h : sliceReadExact n p = .ok (b, r)) : sliceReadExact n (p ++ s) = .ok (b, r ++ s) := by
   obtain ⟨hn, hb, hr⟩ := sliceReadExact_ok h
   unfold sliceReadExact
-  have : n ≤ p.length + s.length := by omega
+  have : lengthGe (p ++ s) n = true := (lengthGe_iff _ _).mpr (by simp; omega)
   simp [this, hb, hr, List.take_append_of_le_length hn, List.drop_append_of_le_length hn]
 
 /-- closed form of the loop on a slice -/
@@ -92,6 +93,15 @@ theorem slice_readBulk (len : Nat) (bs : Bytes) :
   simp
 
 theorem slice_readExact (n : Nat) (bs : Bytes) :
-    Rd.slice.readExact n bs = if n ≤ bs.length then .ok (bs.take n, bs.drop n) else .err eEof := rfl
+    Rd.slice.readExact n bs = if n ≤ bs.length then .ok (bs.take n, bs.drop n) else .err eEof := by
+  show sliceReadExact n bs = _
+  unfold sliceReadExact
+  by_cases h : n ≤ bs.length
+  · simp [h, (lengthGe_iff bs n).mpr h]
+  · have : lengthGe bs n = false := by
+      cases hl : lengthGe bs n with
+      | false => rfl
+      | true => exact absurd ((lengthGe_iff bs n).mp hl) h
+    simp [h, this]
 
 end Borsh
